@@ -33,6 +33,7 @@ def universes(tier):
     u["symmetric"] = [g for _, g in U.symmetric()]
     u["stars-as-SCRG"] = [U.to_kind(g, SCRG) for g in U.stars(4)][::2]
     u["stars-extra"] = list(U.stars_extra())
+    u["hubs"] = list(U.hubs(tier))
     u["symmetric-reactions"] = [g for _, g in U.symmetric_reactions()][::5]
     if tier == "thorough":
         u["MG5"] = list(U.MG5_reps())
@@ -183,8 +184,9 @@ def fully_specified(m):
 def chunks(tier, size=8):
     out = []
     for name, specs in universes(tier).items():
-        for lo in range(0, len(specs), size):
-            out.append({"u": name, "lo": lo, "hi": min(len(specs), lo + size)})
+        sz = 1 if name == "hubs" else size      # (each hub spec costs as much as a whole chunk of the others)
+        for lo in range(0, len(specs), sz):
+            out.append({"u": name, "lo": lo, "hi": min(len(specs), lo + sz)})
     return out
 
 
